@@ -24,6 +24,7 @@ def tasks(tier, seed):
     ts += [{"kind": "dense_cfg", "count": 100 if q else 400, "seed": seed * 10 + i} for i in range(2 if q else 8)]
     ts += [{"kind": "pda", "part": i, "parts": 4, "stride": 40 if q else 4} for i in range(4)]
     ts += [{"kind": "rnd_pda", "count": 80 if q else 500, "seed": seed * 10 + i} for i in range(2 if q else 8)]
+    ts += [{"kind": "spelling_pda", "lo": 1 + 16 * i, "hi": min(64, 17 + 16 * i)} for i in range(4)]
     ts += [{"kind": "nfa_like_pda", "count": 150 if q else 800, "seed": seed * 10 + i} for i in range(2 if q else 8)]
     ts += [{"kind": "tm", "nwork": 1, "gamma": "a_", "lo": 0, "hi": 169, "stride": 1}]
     tot = tmsrc.tm_count(2, "a_")
@@ -160,9 +161,13 @@ def drive(task):
     elif k == "rnd_pda":
         for i in range(task["count"]):
             yield from build_events({"kind": "pda_rnd", "seed": task["seed"] * 100000 + i})
+    elif k == "spelling_pda":
+        for m in range(task["lo"], task["hi"]):
+            yield from build_events({"kind": "pda_spelling", "mask": m}, ns=[3, 4] if m % 4 == 1 else [3], opt={"limit": 30})
     elif k == "nfa_like_pda":
         for i in range(task["count"]):
-            yield from build_events({"kind": "pda_nfa_like", "seed": task["seed"] * 100000 + i})
+            sd = task["seed"] * 100000 + i
+            yield from build_events({"kind": "pda_nfa_like", "seed": sd}, ns=[0, 1, 3] if sd % 4 == 3 else None)
     elif k == "tm":
         for code in range(task["lo"], task["hi"], task["stride"]):
             yield from build_events({"kind": "tm_code", "nwork": task["nwork"], "gamma": task["gamma"], "code": code})
